@@ -445,6 +445,13 @@ def run_one(ch):
             nd = nodes[verdict[1]]
             if not nd["meta"].startswith("gemini://"):
                 st["non_gemini_target"] = 1
+            if nd.get("greykind") == 4 and verdict[2] <= max_r:
+                # an absolute URL of another scheme cannot be followed: that 3x is the final
+                # response of a chain that stayed within the limit
+                if got[0] != "resp" or got[1] != nd["status"] or got[2] != nd["meta"]:
+                    res.violate("C16/unfollowable-redirect-not-returned",
+                                f"after {verdict[2]} gemini redirects (max_redirects={max_r}) the chain "
+                                f"ends in a 3x to a non-gemini URL: it must be returned as it is", **ctx)
         elif v == "changed":
             st["cert_changed_on_hop"] = 1
             if got[0] == "resp":
